@@ -232,7 +232,7 @@ def tbl_eq(t0, t1):
         return BoolVal(True)
     return FA([INT], lambda r: And(t0.live[r] == t1.live[r],
                                    Implies(t0.live[r], same_row(t0, t1, r))),
-              pats=lambda r: [t1.live[r]])
+              pats=lambda r: [t1.live[r], t0.live[r]])
 
 
 def arrays_equal(t0, t1):
@@ -247,7 +247,7 @@ def is_delete(t0, t1, pred):
     """t1 = t0 minus the live rows satisfying pred(Row); other rows unchanged."""
     return FA([INT], lambda r: And(t1.live[r] == And(t0.live[r], Not(pred(Row(t0, r)))),
                                    Implies(t1.live[r], same_row(t0, t1, r))),
-              pats=lambda r: [t1.live[r]])
+              pats=lambda r: [t1.live[r], t0.live[r]])
 
 
 def is_update(t0, t1, pred, sets):
@@ -270,7 +270,7 @@ def is_update(t0, t1, pred, sets):
                 if c in t0.nulls:
                     cs.append(Implies(t0.live[r], t1.nulls[c][r] == t0.nulls[c][r]))
         return And(*cs)
-    return FA([INT], body, pats=lambda r: [t1.live[r]])
+    return FA([INT], body, pats=lambda r: [t1.live[r], t0.live[r]])
 
 
 def is_insert(t0, t1, vals, rowid=None):
@@ -293,7 +293,7 @@ def is_insert(t0, t1, vals, rowid=None):
                 cs.append(t1.nulls[c][r2])
         cs.append(FA([INT], lambda r: Implies(r != r2, And(t1.live[r] == t0.live[r],
                                                           Implies(t0.live[r], same_row(t0, t1, r)))),
-                     pats=lambda r: [t1.live[r]]))
+                     pats=lambda r: [t1.live[r], t0.live[r]]))
         return And(*cs)
     if rowid is not None:
         return at(rowid)
@@ -306,7 +306,7 @@ def is_insert_where(t0, t1, P):
         return And(Not(t0.live[r2]), t1.live[r2], P(Row(t1, r2)),
                    FA([INT], lambda r: Implies(r != r2, And(t1.live[r] == t0.live[r],
                                                            Implies(t0.live[r], same_row(t0, t1, r)))),
-                      pats=lambda r: [t1.live[r]]))
+                      pats=lambda r: [t1.live[r], t0.live[r]]))
     return EX([INT], at)
 
 
